@@ -1,0 +1,44 @@
+//go:build verif
+
+package app
+
+// Add-only hooks for the verification harness of property C09 (/verif). Thin exported wrappers,
+// no change of behaviour. Only compiled with -tags verif.
+
+import (
+	"github.com/Eyevinn/mp4ff/mp4"
+)
+
+// VerifC09Chunk mirrors chunk.
+type VerifC09Chunk struct {
+	Styp *mp4.StypBox
+	Frag *mp4.Fragment
+	Dur  uint64
+}
+
+// VerifC09ChunkSegment calls chunkSegment with a segMeta carrying the given new time/number/duration.
+func VerifC09ChunkSegment(init *mp4.InitSegment, seg *mp4.MediaSegment, newTime uint64, newNr, newDur uint32, chunkDur int) ([]VerifC09Chunk, error) {
+	chunks, err := chunkSegment(init, seg, segMeta{newTime: newTime, newNr: newNr, newDur: newDur}, chunkDur)
+	if err != nil {
+		return nil, err
+	}
+	out := make([]VerifC09Chunk, len(chunks))
+	for i, c := range chunks {
+		out[i] = VerifC09Chunk{c.styp, c.frag, c.dur}
+	}
+	return out, nil
+}
+
+// VerifC09AssetInfo returns SegmentDurMS and LoopDurMS of a loaded asset and, per representation
+// id, its media timescale (0, 0, nil if the asset is unknown).
+func VerifC09AssetInfo(s *Server, assetPath string) (segmentDurMS, loopDurMS int, timescales map[string]int) {
+	a, ok := s.assetMgr.assets[assetPath]
+	if !ok {
+		return 0, 0, nil
+	}
+	timescales = make(map[string]int)
+	for id, r := range a.Reps {
+		timescales[id] = r.MediaTimescale
+	}
+	return a.SegmentDurMS, a.LoopDurMS, timescales
+}
